@@ -3,13 +3,16 @@ import Req.Pool.Lockset
 import Req.Pool.Monitor
 import Req.Pool.H1PoolLane
 import Req.Pool.Pairing
+import Req.Pool.H2MuxLane
+import Req.Pool.H3Map
 /-! Driver lanes of C09. -/
 namespace Req.Driver.L.C09
 open Req.Proto
 
 /-! ### `c09lockset <fieldId> <site>/<site>/…`
 site = `<fn hex>:<write 0|1>:<cfg 0|1>:<lock ids comma-joined or ->`.
-Answer: `guarded <common lock ids>` or `unguarded <majority lock> <offending fn hex list>`. -/
+Answer: `guarded <common lock ids>`, `pairwise` (no common lock, but every two sites of which one
+can write share a lock) or `unguarded <majority lock> <offending fn hex list>`. -/
 
 def parseSite (s : String) : Option Req.Pool.Lockset.Access :=
   match s.splitOn ":" with
@@ -29,6 +32,7 @@ def laneLockset : List String → String
     | some as =>
       match Req.Pool.Lockset.verdict as with
       | .guarded ls => "guarded " ++ encodeNatList ls
+      | .pairwise => "pairwise"
       | .unguarded l fns => "unguarded " ++ toString l ++ " " ++
           (if fns.isEmpty then "-" else ",".intercalate (fns.map encFn))
     | none => "bad-op"
@@ -100,7 +104,10 @@ def lanePool : List String → String
 kinds: `NB` no body · `B` body read to EOF · `CH` chunked body read to EOF · `HD` HEAD ·
 `BX` body, caller closes early · `BK` body + `Connection: close` · `NBK` no body + close ·
 `BI` body, `CloseIdleConnections` called before the body is read to EOF · `E1`/`EX` POST with
-`Expect: 100-continue` answered by `100 Continue` + 200 / by a final 403 without 100 (keep-alive).
+`Expect: 100-continue` answered by `100 Continue` + 200 / by a final 403 without 100 (keep-alive) ·
+`NBU`/`BU` like `NB`/`B`, but the origin sends unsolicited bytes (a duplicate of the response, an
+unrequested response, garbage, half a status line) after the complete response, and the caller
+lets the read loop see them before its next request.
 Answer per request `<conn>:<reused>:<events>` (joined with `;`): conn = sequence number of the
 connection used, events = `R` response returned to the caller, `P` PutIdleConn(nil), `p`
 PutIdleConn(error), `E` caller saw EOF, `C` caller closed early — in observation order. -/
@@ -128,14 +135,17 @@ def pairReq (sim : PairSim) (r : Nat) (kind : String) : Option PairSim :=
     -- is delivered, the response is read to EOF and the connection goes back to the pool
     | "E1" => some (true, true, true, true)
     | "EX" => some (true, true, true, true)
+    | "NBU" => some (false, true, true, true)
+    | "BU" => some (true, true, true, true)
     | _ => none
+  let unsolicited := kind == "NBU" || kind == "BU"
   match spec with
   | none => none
   | some (hasBody, keep, accept, eof) =>
     -- a closed (or never available) connection is replaced by a freshly dialled one
     let (st0, conn, fresh) :=
       if sim.st.avail then (sim.st, sim.conn, sim.fresh) else ({}, sim.conn + 1, true)
-    let s1 := Req.Pool.Pairing.step st0 (.start r)
+    let s1 := Req.Pool.Pairing.step (Req.Pool.Pairing.step st0 (.start r)) .peerAnswer
     let s2 := Req.Pool.Pairing.step s1 (.readHead hasBody keep true accept)
     let s3 := if hasBody then Req.Pool.Pairing.step s2 (.bodyDone eof true accept) else s2
     -- events of this request = what was added to the log, oldest first
@@ -152,6 +162,9 @@ def pairReq (sim : PairSim) (r : Nat) (kind : String) : Option PairSim :=
       if hasBody then
         if eof then "R" ++ String.join (letters.filter (fun l => l == "P" || l == "p")) ++ "E" else "RC"
       else String.join letters
+    -- unsolicited bytes behind the response: the read loop finds them on the idle connection
+    let s3 := if unsolicited then
+        Req.Pool.Pairing.step (Req.Pool.Pairing.step s3 .peerExtra) .peekIdle else s3
     some { st := s3, conn := conn, fresh := false,
            out := (toString conn ++ ":" ++ (if fresh then "0" else "1") ++ ":" ++ evs) :: sim.out }
 
@@ -168,7 +181,157 @@ def lanePair : List String → String
     | none => "bad-op"
   | _ => "bad-op"
 
+/-! ### `c09h2mux <strict 0|1> <singleUse 0|1> <MAX_CONCURRENT_STREAMS> <nCallers> <ops>`
+One HTTP/2 `ClientConn`, forced schedule. ops comma-joined: `R.k` ReserveNewRequest for caller k ·
+`S.k.<head>.<upload>.<stall>` caller k starts `roundTrip` (HEAD / upload that stalls on flow control /
+parks in the stream hook with its id allocated) · `U.k` release caller k from the hook · `C.k` cancel ·
+`B.k` close the response body · `T` closeIfIdle · peer frames `PH.<tgt>.<kind 0 2xx|1 1xx|2 no status>.<fin>.<tag>`,
+`PD.<tgt>.<len>.<fin>.<tag>`, `PR.<tgt>.<code>`, `PW.<tgt>.<overflow>`, `PP.<tgt>`, `PG.<tgt>.<code>`,
+`PS.<max|->`, `PE` (peer closes). tgt = `k<n>` the stream caller n opened · `u<j>` nextStreamID+2j · `z` 0.
+Answer per op (joined with `;`): `skip` or `<resolved id|->|<return>|<dump>`. -/
+
+def parseTgt (s : String) : Option Req.Pool.H2MuxLane.Tgt :=
+  if s == "z" then some .zero
+  else if s.startsWith "k" then (s.drop 1).toNat?.map .ofCaller
+  else if s.startsWith "u" then (s.drop 1).toNat?.map .unopened
+  else none
+
+def parseB (s : String) : Option Bool := if s == "1" then some true else if s == "0" then some false else none
+
+def parseLOp (s : String) : Option Req.Pool.H2MuxLane.LOp :=
+  match s.splitOn "." with
+  | ["R", k] => do pure (.reserve (← k.toNat?))
+  | ["S", k, h, u, st] => do pure (.start (← k.toNat?) (← parseB h) (← parseB u) (← parseB st))
+  | ["U", k] => do pure (.release (← k.toNat?))
+  | ["C", k] => do pure (.cancel (← k.toNat?))
+  | ["B", k] => do pure (.closeBody (← k.toNat?))
+  | ["T"] => some .idleTimeout
+  | ["PH", t, kind, fin, tag] => do
+    let kd ← (match kind with | "0" => some Req.Pool.H2Mux.HKind.status2xx | "1" => some .status1xx | "2" => some .noStatus | _ => none)
+    pure (.pHeaders (← parseTgt t) kd (← parseB fin) (← tag.toNat?))
+  | ["PD", t, len, fin, tag] => do pure (.pData (← parseTgt t) (← len.toNat?) (← parseB fin) (← tag.toNat?))
+  | ["PR", t, code] => do pure (.pRst (← parseTgt t) (← code.toNat?))
+  | ["PW", t, ov] => do pure (.pWindowUpdate (← parseTgt t) (← parseB ov))
+  | ["PP", t] => do pure (.pPush (← parseTgt t))
+  | ["PG", t, code] => do pure (.pGoAway (← parseTgt t) (← code.toNat?))
+  | ["PS", m] => if m == "-" then some (.pSettings none) else m.toNat?.map (fun v => .pSettings (some v))
+  | ["PE"] => some .pEOF
+  | _ => none
+
+def laneH2Mux : List String → String
+  | [st, su, mc, n, ops] =>
+    match parseB st, parseB su, mc.toNat?, n.toNat?,
+          (if ops == "-" then some [] else (ops.splitOn ",").mapM parseLOp) with
+    | some st, some su, some mc, some n, some os =>
+      ";".intercalate (Req.Pool.H2MuxLane.runLane ⟨st, su⟩ mc n os)
+    | _, _, _, _, _ => "bad-op"
+  | _ => "bad-op"
+
+def insertSortedH3 (x : Nat × Nat) : List (Nat × Nat) → List (Nat × Nat)
+  | [] => [x]
+  | y :: ys => if x.1 ≤ y.1 then x :: y :: ys else y :: insertSortedH3 x ys
+
+/-! ### `c09h3map <nClients> <nReqs> <ops>` — the HTTP/3 client cache, one driving goroutine
+ops comma-joined: `S.r.h.<onlyCached>` request r (`RoundTripOpt`) for host h starts · `D.c.<ok>` the dial
+of client c (numbered in creation order) finishes · `X.c` the connection of c dies · `U.r` the context
+of r ends while its dial runs · `F.r.<connErr>` the round trip of r returns (nil / a connection-level
+error) · `CI` CloseIdleConnections · `CL` Close.  After each op everything the library then does on
+its own is applied (a request whose dial failed returns; the dial of a client that was closed while
+dialling fails).  Answer per op (joined with `;`): `skip` or
+`M=<host>:<client>,… C=<client>:<useCount>:<closed 0|1, - without a connection>,… R=<r>:<w|t<client>|o>,…`. -/
+
+namespace H3Lane
+open Req.Pool.H3Map
+
+def st1 (s : St) (op : Op) : St × Bool := let r := step s op; (r.1, r.2 != .ignored)
+
+/-- what happens on its own -/
+def settle (nc nr : Nat) (only : Nat → Bool) : Nat → St → St
+  | 0, s => s
+  | fuel + 1, s =>
+    -- a client closed by us while its dial runs: the dial's context is cancelled
+    let r1 := (List.range nc).foldl (fun (a : St × Bool) c =>
+      if (a.1.cl c).closedByUs && (a.1.cl c).dial == .running && (a.1.cl c).host.isSome then
+        ((step a.1 (.dialDone c .failed)).1, true) else a) (s, false)
+    -- the dial runs under the context of the request that created the client: when that
+    -- request has given up, the dial fails
+    let r1 := (List.range nc).foldl (fun (a : St × Bool) c =>
+      if (a.1.cl c).dial == .running && (a.1.cl c).host.isSome && a.1.rst (a.1.cl c).creator == .over then
+        ((step a.1 (.dialDone c .cancelled)).1, true) else a) r1
+    -- a request whose dial was cancelled together with the request that had started it starts
+    -- over: `RoundTripOpt` again with the same options, i.e. `getClient` for the same host (an
+    -- OnlyCachedConn request that had joined the running dial now finds nothing cached)
+    let r1 := (List.range nr).foldl (fun (a : St × Bool) r =>
+      match a.1.rst r, a.1.rhost r with
+      | .holding _, some h =>
+        let x := st1 a.1 (.retryDial r)
+        if x.2 then ((step x.1 (.get r h (only r))).1, true) else a
+      | _, _ => a) r1
+    -- a request that waited for a dial that failed returns
+    let r2 := (List.range nr).foldl (fun (a : St × Bool) r =>
+      let x := st1 a.1 (.dialFailed r); (x.1, a.2 || x.2)) r1
+    if r2.2 then settle nc nr only fuel r2.1 else r2.1
+
+def dump (nc nr : Nat) (s : St) : String :=
+  let m := (s.clients.foldr (fun p acc => Req.Driver.L.C09.insertSortedH3 p acc) []).map
+    (fun p => toString p.1 ++ ":" ++ toString p.2)
+  let cs := ((List.range nc).filter (fun c => (s.cl c).host.isSome)).map fun c =>
+    -- `Close()` on a client without a connection (dial running or failed) leaves nothing to observe
+    toString c ++ ":" ++ toString (s.cl c).useCount ++ ":" ++
+      (if (s.cl c).dial != .ok then "-" else if (s.cl c).closedByUs then "1" else "0")
+  let rs := (List.range nr).filterMap fun r =>
+    match s.rst r with
+    | .fresh => none
+    | .holding c => some (toString r ++ ":" ++ (if (s.cl c).dial == .ok then "t" ++ toString c else "w"))
+    | .over => some (toString r ++ ":o")
+  let j (l : List String) := if l.isEmpty then "-" else ",".intercalate l
+  "M=" ++ j m ++ " C=" ++ j cs ++ " R=" ++ j rs
+
+end H3Lane
+
+def parseH3Op (s : String) : Option Req.Pool.H3Map.Op :=
+  match s.splitOn "." with
+  | ["S", r, h, oc] => do pure (.get (← r.toNat?) (← h.toNat?) (← parseB oc))
+  | ["D", c, ok] => do pure (.dialDone (← c.toNat?) (if (← parseB ok) then .ok else .failed))
+  | ["X", c] => do pure (.connDies (← c.toNat?))
+  | ["U", r] => do pure (.giveUp (← r.toNat?))
+  | ["F", r, ce] => do pure (.finish (← r.toNat?) (← parseB ce))
+  | ["CI"] => some .closeIdle
+  | ["CL"] => some .close
+  | _ => none
+
+def laneH3Map : List String → String
+  | [nc, nr, ops] =>
+    match nc.toNat?, nr.toNat?, (if ops == "-" then some [] else (ops.splitOn ",").mapM parseH3Op) with
+    | some nc, some nr, some os =>
+      let only : Nat → Bool := fun r => os.any fun op =>
+        match op with
+        | .get r' _ oc => r' == r && oc
+        | _ => false
+      let r := os.foldl (fun (acc : Req.Pool.H3Map.St × List String) op =>
+        let x := Req.Pool.H3Map.step acc.1 op
+        -- the request that started a dial gives up while two or more others wait for it: they all
+        -- dial again, and which of them gets to start the new dial is up to the Go scheduler
+        let racy := match op with
+          | .giveUp r =>
+            match acc.1.rst r with
+            | .holding c => (acc.1.cl c).creator == r &&
+                ((List.range nr).filter (fun r' => r' != r && acc.1.rst r' == .holding c)).length ≥ 2
+            | _ => false
+          | _ => false
+        -- `S` with onlyCached and nothing cached is a real call (returns ErrNoCachedConn); any other
+        -- ignored op is outside the calling protocol
+        if x.2 == .ignored || racy then (acc.1, "skip" :: acc.2)
+        else
+          let s2 := H3Lane.settle nc nr only 16 x.1
+          (s2, H3Lane.dump nc nr s2 :: acc.2)) ({}, [])
+      ";".intercalate r.2.reverse
+    | _, _, _ => "bad-op"
+  | _ => "bad-op"
+
 def lanes : List (String × (List String → String)) := [
+  ("c09h3map", laneH3Map),
+  ("c09h2mux", laneH2Mux),
   ("c09lockset", laneLockset),
   ("c09pair", lanePair),
   ("c09pool", lanePool),
